@@ -89,18 +89,23 @@ Fixpoint texts_ok07 (t : template16) : bool :=
   | Block _ _ _ body :: r => body_ok07 body && texts_ok07 r
   | SigBlock _ _ body :: r => body_ok07 body && texts_ok07 r
   | TransBlock _ _ _ :: _ => false          (* nested transition blocks carry no USER tags in the shipped files; not admitted here *)
+  | MsgBlock _ _ _ _ :: _ => false
   | InitLine _ :: _ => false
   | TableLine _ _ :: _ => false
-  | UserLine _ :: _ => false
+  | UserLine _ :: r => texts_ok07 r          (* its output line is judged per assignment: user_lines_plain *)
   end.
 
 (* every body line has a literal piece with a visible character (so no expanded copy is blank) *)
 Definition has_ink (l : uline) : bool := existsb (fun g => match g with Lit s => negb (all_ws s) | _ => false end) l.
 Definition inky (t : template16) : bool :=
   forallb (fun it => match it with Block _ _ _ body => forallb has_ink body | SigBlock _ _ body => forallb has_ink body
-                         | TransBlock _ _ _ => false | InitLine _ => false | TableLine _ _ => false | UserLine _ => false | _ => true end) t.
+                         | TransBlock _ _ _ => false | MsgBlock _ _ _ _ => false | InitLine _ => false | TableLine _ _ => false | _ => true end) t.
 
 Definition in_grammar07 (t : template16) : bool := texts_ok07 t && inky t.
+
+(* the output of the lines with user tags outside blocks, under the assignment of the element record: plain, well-formed lines *)
+Definition user_lines_plain (e : elements) (t : template16) : bool :=
+  forallb (fun it => match it with UserLine l => closed_plain_ok (ref_line (el_user e) l) && for_plain (ref_line (el_user e) l) | _ => true end) t.
 
 (* ---------------------------------------------------------------- the cleaned names of the USER tags of the output *)
 Definition akey_seg (tb : list (string * string)) (g : seg) : string :=
@@ -130,6 +135,7 @@ Fixpoint keys07 (e : elements) (t : template16) : list string :=
   | Block k _ _ body :: r => block_keys (table_of_kind k) (items_of e k) body ++ keys07 e r
   | SigBlock _ _ body :: r => block_keys sig_table (el_sigs e) body ++ keys07 e r
   | TransBlock _ _ _ :: r => keys07 e r
+  | MsgBlock _ _ _ _ :: r => keys07 e r
   | InitLine _ :: r => keys07 e r
   | TableLine _ _ :: r => keys07 e r
   | UserLine _ :: r => keys07 e r
@@ -168,3 +174,7 @@ Definition names_ok (t : template16) (e : elements) : bool :=
   && nodup_pairs (el_sigs e) && nodupb (el_structs e) && nodupb (el_protos e) && nodupb (el_msgs e)
   (* the event of a signature reads as itself (an absent event reads NONE, 'any' reads ANY) *)
   && forallb (fun ae => String.eqb (sig_event_name (snd ae)) (snd ae)) (el_sigs e).
+
+(* no guard is named like a state hook On<State>Entry / On<State>Exit (Test.TEMPLATEStateMachine.cs: USER_<GUARD> vs USER_On<STATE>Entry) *)
+Definition hooks_free (e : elements) : bool :=
+  forallb (fun g => forallb (fun s => negb (String.eqb g ("On" ++ (s ++ "Entry"))) && negb (String.eqb g ("On" ++ (s ++ "Exit")))) (el_states e)) (el_guards e).
